@@ -11,6 +11,17 @@ violated.  The documented conditions are stated outright in the theorem statemen
 namespace SwiftMT.Props.C04
 open SwiftMT SwiftMT.Rules
 
+theorem run_opt {M E : Type} (m : M) (f : M → Option E) (r : Bool) (ss : List (Stage M E)) (acc : List E) :
+    runStages false m (.opt f r :: ss) acc = runStages false m ss (acc ++ (f m).toList) := by
+  simp only [runStages]; cases f m <;> simp
+theorem run_vec {M E : Type} (m : M) (f : M → List E) (r : Bool) (ss : List (Stage M E)) (acc : List E) :
+    runStages false m (.vec f r :: ss) acc = runStages false m ss (acc ++ f m) := by
+  simp [runStages]
+theorem run_vecStop {M E : Type} (m : M) (f : Bool → M → List E) (r : Bool) (ss : List (Stage M E)) (acc : List E) :
+    runStages false m (.vecStop f r :: ss) acc = runStages false m ss (acc ++ f false m) := by
+  simp [runStages]
+theorem run_nil {M E : Type} (m : M) (acc : List E) : runStages false m ([] : List (Stage M E)) acc = acc := rfl
+
 /-- every stage of a modelled type's regenerated `validate_network_rules` has a rule model of the same name and kind,
 and no model is left without a stage (a rule added to or dropped from the Rust breaks this) -/
 theorem stages_modelled : ∀ p ∈ modelled, stagesOf p.1 = p.2 := by decide
@@ -221,12 +232,203 @@ theorem r200_nil_iff (v : V200) : rs200.validate v = [] ↔ ∀ l ∈ v.lines72,
   · intro h c ⟨l, hl, hc⟩ hcon
     exact h l hl c hc (List.contains_iff_mem.mp hcon)
 
+/-! ### MT103 -/
+theorem validate103_eq (v : V103) :
+    rs103.validate v = (r103_23b v).toList ++ r103_23e v ++ (r103_c1 v).toList ++ r103_c3 v ++ (r103_c4 v).toList ++
+      (r103_c5 v).toList ++ (r103_c6 v).toList ++ r103_c7 v ++ (r103_c8 v).toList ++ (r103_c9 v).toList ++
+      (r103_c13 v).toList ++ r103_c16 v ++ r103_c17 v := by
+  simp only [RuleSet.validate, rs103, List.map, run_opt, run_vec, run_nil, List.nil_append, List.append_assoc]
+/-- D75: field 36 present exactly when 33B is present with a currency different from 32A -/
+theorem r103_c1_iff (v : V103) :
+    r103_c1 v = none ↔ (v.has36 = true ↔ ∃ c, v.ccy33b = some c ∧ v.ccy32a ≠ c) := by
+  unfold r103_c1
+  cases h33 : v.ccy33b with
+  | none => cases v.has36 <;> simp
+  | some c => by_cases hc : v.ccy32a = c <;> cases v.has36 <;> simp [hc]
+/-- E06: 55a needs both 53a and 54a -/
+theorem r103_c4_iff (v : V103) : r103_c4 v = some "E06" ↔ (v.has55 = true ∧ (v.has53 = false ∨ v.has54 = false)) := by
+  unfold r103_c4; cases v.has55 <;> cases v.has53 <;> cases v.has54 <;> simp
+/-- C81: 56a needs 57a -/
+theorem r103_c5_iff (v : V103) : r103_c5 v = some "C81" ↔ (v.has56 = true ∧ v.has57 = false) := by
+  unfold r103_c5; cases v.has56 <;> cases v.has57 <;> simp
+/-- E16: no 56a with SPRI -/
+theorem r103_c6_iff (v : V103) : r103_c6 v = some "E16" ↔ (v.b23 = "SPRI".toList ∧ v.has56 = true) := by
+  unfold r103_c6; by_cases h : v.b23 = "SPRI".toList <;> cases v.has56 <;> simp [h]
+/-- D51: charges (71F or 71G) need 33B -/
+theorem r103_c8_iff (v : V103) : r103_c8 v = some "D51" ↔ ((v.has71f = true ∨ v.ccy71g.isSome = true) ∧ v.ccy33b = none) := by
+  unfold r103_c8; cases v.has71f <;> cases v.ccy71g <;> cases v.ccy33b <;> simp
+/-- C02: the currency of 71G equals that of 32A -/
+theorem r103_c9_iff (v : V103) : r103_c9 v = some "C02" ↔ ∃ c, v.ccy71g = some c ∧ v.ccy32a ≠ c := by
+  unfold r103_c9
+  cases h : v.ccy71g with
+  | none => simp
+  | some c => by_cases hc : v.ccy32a = c <;> simp [hc]
+/-- E13 / D50 / E15: what 71A allows of 71F and 71G -/
+theorem r103_c7_nil_iff (v : V103) :
+    r103_c7 v = [] ↔ (v.code71a = ['O', 'U', 'R'] → v.has71f = false) ∧ (v.code71a = ['S', 'H', 'A'] → v.ccy71g = none) ∧
+      (v.code71a = ['B', 'E', 'N'] → v.has71f = true ∧ v.ccy71g = none) := by
+  unfold r103_c7
+  by_cases h1 : v.code71a = ['O', 'U', 'R']
+  · cases hf : v.has71f <;> simp [h1, hf]
+  · by_cases h2 : v.code71a = ['S', 'H', 'A']
+    · cases hg : v.ccy71g <;> simp [h2, hg]
+    · by_cases h3 : v.code71a = ['B', 'E', 'N']
+      · cases hf : v.has71f <;> cases hg : v.ccy71g <;> simp [h3, hf, hg]
+      · simp [h1, h2, h3]
+/-- T36: 23B outside the documented list -/
+theorem r103_23b_iff (v : V103) : r103_23b v = some "T36" ↔ v.b23 ∉ tbl 103 "MT103_VALID_23B_CODES" := by
+  unfold r103_23b
+  by_cases h : (tbl 103 "MT103_VALID_23B_CODES").contains v.b23 = true
+  · simp [h, List.contains_iff_mem.mp h]
+  · have : v.b23 ∉ tbl 103 "MT103_VALID_23B_CODES" := fun hm => h (List.contains_iff_mem.mpr hm)
+    simp [h, this]
+/-- the code tables the MT103 rules consult are the documented ones -/
+theorem tables103 :
+    tbl 103 "MT103_VALID_23B_CODES" = ["CRED", "CRTS", "SPAY", "SPRI", "SSTD"].map String.toList ∧
+    tbl 103 "REMIT_SPRI_ALLOWED_23E" = ["SDVA", "TELB", "PHOB", "INTC"].map String.toList ∧
+    tbl 103 "FIELD_23E_CODE_ORDER" = ["SDVA", "INTC", "REPA", "CORT", "HOLD", "CHQB", "PHOB", "TELB", "PHON", "TELE", "PHOI", "TELI"].map String.toList := by
+  decide
+
+/-! ### MT101 -/
+/-- D61: the ordering customer (50F/G/H) is in sequence A, or in every sequence B — never in both, never in only some -/
+theorem r101_c3_iff (v : V101) :
+    r101_c3 v = none ↔ ((v.a50fgh = true ∧ ∀ t ∈ v.txs, t.has50fgh = false) ∨
+                        (v.a50fgh = false ∧ v.txs ≠ [] ∧ ∀ t ∈ v.txs, t.has50fgh = true)) := by
+  unfold r101_c3
+  have hany : v.txs.any (·.has50fgh) = false ↔ ∀ t ∈ v.txs, t.has50fgh = false := by
+    rw [Bool.eq_false_iff]
+    constructor
+    · intro h t ht
+      cases hh : t.has50fgh
+      · rfl
+      · exact absurd (List.any_eq_true.mpr ⟨t, ht, hh⟩) h
+    · intro h ha
+      obtain ⟨t, ht, hh⟩ := List.any_eq_true.mp ha
+      rw [h t ht] at hh; cases hh
+  have hall : (!v.txs.isEmpty && v.txs.all (·.has50fgh)) = true ↔ (v.txs ≠ [] ∧ ∀ t ∈ v.txs, t.has50fgh = true) := by
+    simp [List.all_eq_true]
+  cases ha : v.a50fgh
+  · simp only [Bool.false_and, Bool.not_false, Bool.true_and, Bool.false_eq_true, if_false, false_and, false_or, true_and]
+    by_cases h : (!v.txs.isEmpty && v.txs.all (·.has50fgh)) = true
+    · have := hall.mp h
+      simp [h, this.1]
+      exact this.2
+    · have hn : ¬ (v.txs ≠ [] ∧ ∀ t ∈ v.txs, t.has50fgh = true) := fun hc => h (hall.mpr hc)
+      simp only [Bool.not_eq_true] at h
+      simp [h]
+      intro hne
+      by_cases hx : ∃ t ∈ v.txs, t.has50fgh = false
+      · exact hx
+      · exfalso; apply hn; refine ⟨hne, fun t ht => ?_⟩
+        cases hh : t.has50fgh
+        · exact absurd ⟨t, ht, hh⟩ hx
+        · rfl
+  · simp only [Bool.true_and, Bool.not_true, Bool.false_and, true_and, false_and, or_false]
+    cases hb : v.txs.any (·.has50fgh)
+    · simp
+      exact hany.mp hb
+    · simp
+      exact List.any_eq_true.mp hb
+/-- D62: the instructing party (50C/L) is not in sequence A and in a sequence B at once -/
+theorem r101_c4_iff (v : V101) : r101_c4 v = some "D62" ↔ (v.a50cl = true ∧ ∃ t ∈ v.txs, t.has50cl = true) := by
+  unfold r101_c4
+  cases v.a50cl <;> simp
+/-- D64: 52a not in sequence A and in a sequence B at once -/
+theorem r101_c6_iff (v : V101) : r101_c6 v = some "D64" ↔ (v.a52 = true ∧ ∃ t ∈ v.txs, t.has52 = true) := by
+  unfold r101_c6
+  cases v.a52 <;> simp
+/-- D54: every transaction with an exchange rate (36) carries the F/X deal reference (21F) -/
+theorem r101_c1_nil_iff (v : V101) : r101_c1 v = [] ↔ ∀ t ∈ v.txs, t.has36 = true → t.has21f = true := by
+  unfold r101_c1
+  induction v.txs with
+  | nil => simp
+  | cons t ts ih =>
+    simp only [List.flatMap_cons, List.append_eq_nil_iff, List.mem_cons, forall_eq_or_imp]
+    rw [ih]
+    cases t.has36 <;> cases t.has21f <;> simp
+/-- D65: every transaction with 56a carries 57a -/
+theorem r101_c7_nil_iff (v : V101) : r101_c7 v = [] ↔ ∀ t ∈ v.txs, t.has56 = true → t.has57 = true := by
+  unfold r101_c7
+  induction v.txs with
+  | nil => simp
+  | cons t ts ih =>
+    simp only [List.flatMap_cons, List.append_eq_nil_iff, List.mem_cons, forall_eq_or_imp]
+    rw [ih]
+    cases t.has56 <;> cases t.has57 <;> simp
+
+/-! ### MT104 / MT107 -/
+/-- C82: field 72 is present exactly when 23E of sequence A is RTND -/
+theorem r104_c5_iff (v : V104) : r104_c5 v = none ↔ (codeIs v.e23 "RTND" = v.has72) := by
+  unfold r104_c5; cases codeIs v.e23 "RTND" <;> cases v.has72 <;> simp
+theorem r107_c4_iff (v : V104) : r107_c4 v = none ↔ (codeIs v.e23 "RTND" = v.has72) := by
+  unfold r107_c4 codeIs
+  cases h : v.e23 with
+  | none => cases v.has72 <;> simp
+  | some e => by_cases hc : e.code = "RTND".toList <;> cases v.has72 <;> simp [hc]
+/-- D79: charges in a sequence B iff the same charges field in sequence C (71F and 71G separately) -/
+theorem r104_c6_nil_iff (v : V104) :
+    r104_c6 v = [] ↔ (v.txs.any (·.ccy71f.isSome) = v.ccy71f.isSome) ∧ (v.txs.any (·.ccy71g.isSome) = v.ccy71g.isSome) := by
+  unfold r104_c6
+  cases v.txs.any (·.ccy71f.isSome) <;> cases v.txs.any (·.ccy71g.isSome) <;> cases v.ccy71f <;> cases v.ccy71g <;> simp
+/-- D75 per transaction: 36 present exactly when 33B is present in another currency than 32B -/
+theorem r104_c8_nil_iff (v : V104) :
+    r104_c8 v = [] ↔ ∀ t ∈ v.txs, (t.has36 = true ↔ ∃ c a, t.c33b = some (c, a) ∧ t.ccy32b ≠ c) := by
+  unfold r104_c8
+  induction v.txs with
+  | nil => simp
+  | cons t ts ih =>
+    simp only [List.flatMap_cons, List.append_eq_nil_iff, List.mem_cons, forall_eq_or_imp]
+    rw [ih]
+    cases h : t.c33b with
+    | none => cases t.has36 <;> simp
+    | some p =>
+      obtain ⟨c, a⟩ := p
+      by_cases hc : t.ccy32b = c <;> cases t.has36 <;> simp [hc]
+
+/-! ### MT935 / MT942 / MT192 / MT292 / MT296 -/
+/-- T10: between one and ten rate-change sequences -/
+theorem r935_c1_iff (v : V935) : r935_c1 v = none ↔ (1 ≤ v.seqs.length ∧ v.seqs.length ≤ 10) := by
+  unfold r935_c1
+  by_cases h0 : v.seqs.length = 0
+  · simp [h0]
+  · by_cases h1 : v.seqs.length > 10
+    · simp [h0, h1]
+    · simp [h0, h1]; omega
+/-- C83: exactly one of 23 and 25 in every sequence -/
+theorem r935_c2_nil_iff (v : V935) : r935_c2 v = [] ↔ ∀ s ∈ v.seqs, s.has23 ≠ s.has25 := by
+  unfold r935_c2
+  induction v.seqs with
+  | nil => simp
+  | cons s ss ih =>
+    simp only [List.flatMap_cons, List.append_eq_nil_iff, List.mem_cons, forall_eq_or_imp]
+    rw [ih]
+    cases s.has23 <;> cases s.has25 <;> simp
+/-- C23: with two floor limits the marks are D then C; with one, no mark -/
+theorem r942_c2_iff (v : V942) :
+    r942_c2 v = none ↔ (match v.credit with
+      | some c => v.debit.indicator = some ['D'] ∧ c.indicator = some ['C']
+      | none => v.debit.indicator = none) := by
+  unfold r942_c2
+  cases hc : v.credit with
+  | none => cases v.debit.indicator <;> simp
+  | some c =>
+    by_cases h1 : v.debit.indicator = some ['D'] <;> by_cases h2 : c.indicator = some ['C'] <;> simp [h1, h2]
+/-- C25 (MT192): field 79 is required -/
+theorem r192_c1_iff (v : V192) : r192_c1 v = some "C25" ↔ v.has79 = false := by
+  unfold r192_c1; cases v.has79 <;> simp
+/-- C25 (MT292): field 79 or a copy of original fields -/
+theorem r292_c1_iff (v : V292) : r292_c1 v = some "C25" ↔ (v.has79 = false ∧ v.hasOriginal = false) := by
+  unfold r292_c1; cases v.has79 <;> cases v.hasOriginal <;> simp
+/-- C31 (MT296): not both -/
+theorem r296_c1_iff (v : V292) : r296_c1 v = some "C31" ↔ (v.has79 = true ∧ v.hasOriginal = true) := by
+  unfold r296_c1; cases v.has79 <;> cases v.hasOriginal <;> simp
+
 /-- the types without any network rule: their regenerated stage list is empty, so validation reports nothing -/
 theorem ruleless_types : (Generated.Stages.table.filter (fun p => p.2.isEmpty)).map (·.1) = [111, 112, 190, 191, 199, 290, 291, 299, 900] := by
   decide
 /-- the types whose rules are NOT modelled yet (covered by the oracle streams of C13 only) -/
 theorem unmodelled_types :
-    (Generated.Stages.table.filter (fun p => !p.2.isEmpty && !(modelled.any (·.1 == p.1)))).map (·.1) = [101, 104, 107] := by
+    (Generated.Stages.table.filter (fun p => !p.2.isEmpty && !(modelled.any (·.1 == p.1)))).map (·.1) = [] := by
   decide
 
 /-- Non-vacuity: concrete abstract messages on which rules fire. -/
